@@ -52,6 +52,7 @@ PROPS = {
             {"name": "stack", "quick": 40000, "thorough": 2000000, "thorough_time": 300, "extra": ["-sim.only=get-failed,read-mask,read-changed-state,pull-failed,pull-no-seed,pull-seed,pull-name,unrouted,rejected-update-changed-state,read-your-write,update-not-streamed,stream-order-differs,rpc-stuck,panic"]},
             {"name": "stack-race", "quick": 20000, "thorough": 1000000, "thorough_time": 150, "extra": ["-sim.only=get-failed,read-mask,read-changed-state,pull-failed,pull-no-seed,pull-seed,pull-name,unrouted,rejected-update-changed-state,read-your-write,update-not-streamed,stream-order-differs,rpc-stuck,panic"]},
             {"name": "stack-relative", "quick": 10000, "thorough": 500000, "thorough_time": 60},
+            {"name": "stack-serial", "quick": 20000, "thorough": 1000000, "thorough_time": 80},
         ],
         "case_space": "from_worker",
         "case_space_what": "(discovered server, Get/Update/Pull triple) pairs",
